@@ -242,9 +242,10 @@ class C15(Prop):
                   "(text branch with a caller-supplied alphabet = digital branch on esl_msa_Digitize's result, for every threshold / weights / arithmetic), reasonableRF_cons_text_shape, generated_text_cells; "
                   "thresholds in exact arithmetic over Q with the code's own comparisons: reasonableRF_threshold_exact (r > 0 && r/totwgt >= symfrac), markFragments_threshold_exact (span < (int) ceil(t*alen) iff span < t*alen); "
                   "the Set*/Format* family (7 + 7 functions, explicit length n, NULL erasure, idx >= nseq / NULL name refused with eslEINCONCEIVABLE resp. eslEINVAL): setStr_frame, setStr_stores, formatStr_is_setStr; "
-                  "esl_msa_Sample over an arbitrary source of 32-bit words (driver: Mersenne Twister of C09; probabilities and maxn regenerated from the tree): sample_wellformed for every source and state. "
+                  "esl_msa_Sample over an arbitrary source of 32-bit words (driver: Mersenne Twister of C09; probabilities and maxn regenerated from the tree): sample_wellformed for every source and state; "
+                  "history_wellformed: every chain of successful ColumnSubset / RemoveBrokenBasepairs / SequenceSubset / Set* / Format* / Digitize / Textize / ReverseComplement / FlushLeftInserts / MarkFragments_old / ConvertDegen2X / SetDefaultWeights keeps the invariant (WF, valid codes, mode/alphabet, distinct tags). "
                   "Generators: every WUSS routine applied ONCE on odd/even lengths with pairing symbols at the first / last / exact centre column, directly and through esl_msa_ReverseComplement (SS_cons + per-sequence SS); "
-                  "histories of 4-9 transformations with digital<->text switches at 15/16/17/31/32/33 sequences and 0/1/2 columns; sampled alignments followed by transformation chains. Defect found and repaired: 5db1eba. "
+                  "histories of 4-9 transformations with digital<->text switches at 15/16/17/31/32/33 sequences and 0/1/2 columns; sampled alignments followed by transformation chains. Defects found and repaired: 5db1eba, 26b69c5 (the second through the harness heap fill 0x00/0xff by seed parity, which was ineffective before this round: getenv() is NULL when ASan asks for its default options). "
                   "Round 4: esl_ct2wuss AND esl_ct2simplewuss are now TOTAL on every symmetric pair table (ct2wuss_total, ct2simplewuss_total): eslOK or the documented eslEINVAL "
                   "'not enough letters' - never an out-of-bounds access of ct/cct/ss/rb[26], never 'cannot find left partner', never eslEINCONCEIVABLE, never eslFAIL 'found x out of y pairs' "
                   "(npairs_reached is proved equal to the number of pairs); ct2wuss_ok_iff: eslOK iff the greedy lettering does not run out of A..Z; combinatorial sufficient condition "
